@@ -19,7 +19,7 @@ EXTENDS Naturals, Sequences, FiniteSets, TLC, Json
 CONSTANTS Dev
 \* each deviation removes one guard (these are the escapes found on the original tree)
 DevNames == {"HeaderNotObject", "CritUnvalidated", "EncUnhashable", "EncMissingJson", "EpkCrvLookup", "P2cRange",
-             "InflateError", "DeepJson", "SegmentTypeConfusion", "LenientSkipsAlgParams"}
+             "InflateError", "DeepJson", "SegmentTypeConfusion", "LenientSkipsAlgParams", "KeyTypeGateMissing", "DeepClaims"}
 ASSUME Dev \subseteq DevNames
 
 JwsEntries == {"jws.compact", "jws.flattened", "jws.general", "7797.compact", "7797.flattened", "jwt.jws"}
@@ -56,12 +56,15 @@ SlotsOf(e) ==
   \cup (IF IsJwe(e) THEN {Slot("inner", "deflate", "wire")} ELSE {})
   \cup (IF e \in {"jwt.jws", "jwt.jwe"} THEN {Slot("inner", "claims", "wire")} ELSE {})
 ClassesOf(s) ==
-  CASE s.kind \in {"hdr_type", "member"} -> JT \ (IF s.kind = "hdr_type" THEN {"absent", "obj_ok"} ELSE {})
+  CASE s.kind \in {"hdr_type", "member"} -> (JT \ (IF s.kind = "hdr_type" THEN {"absent", "obj_ok"} ELSE {}))
+                                             \* other_family: an allowed algorithm of another key family than the key the verifier holds (the attacker names it)
+                                             \cup (IF s.kind = "member" /\ s.name = "alg" THEN {"other_family"} ELSE {})
     [] s.kind = "epk" -> EpkClasses
     [] s.kind = "segment" -> SegClasses
     [] s.kind = "json_shape" -> {"list", "str", "int", "null", "empty_list", "list_of_nondict", "missing"}
     [] s.kind = "compact_shape" -> {"0", "1", "3", "5", "6", "empty", "not_utf8", "huge"}
     [] s.kind = "inner" -> {"corrupt", "truncated", "empty", "notjson", "nonobject", "bomb", "short"}   \* short: one or two octets
+                           \cup (IF s.name = "claims" THEN {"deep"} ELSE {})                              \* authenticated claims nested beyond the decoder's reach
 
 \* ------------------------------------------------------------------ pipeline
 \* stage at which the slot's content is first touched by a primitive with a domain
@@ -76,6 +79,8 @@ Stage(s) ==
     [] s.kind = "member" -> "check_header"
     [] s.kind = "epk" -> "key_management"
     [] s.kind = "inner" -> "post"
+\* the algorithm of another family passes every header check (it is a well-formed, allowed name): the key meets the primitive
+StageOf(s, c) == IF c = "other_family" THEN "crypto" ELSE Stage(s)
 Stages == <<"split", "extract", "decode_segments", "decode_header", "check_crit", "get_enc", "check_header", "key_management", "crypto", "post">>
 
 \* native exception the unguarded primitive would raise for the slot/class ("none": in the domain)
@@ -85,6 +90,8 @@ Native(s, c) ==
     [] s.kind = "member" /\ s.name \in {"enc", "zip", "alg"} /\ c \in {"list_empty", "list_str", "list_mixed", "list_nested", "obj_empty", "obj_ok", "obj_bad"} -> "TypeError"  \* unhashable
     [] s.kind = "member" /\ s.name = "enc" /\ c = "absent" -> "KeyError"
     [] s.kind = "member" /\ s.name = "p2c" /\ c \in {"int_neg", "int_big", "int_zero"} -> "OverflowError"
+    [] s.kind = "member" /\ c = "other_family" -> "TypeError"                                  \* hmac / sign / verify handed a foreign key object
+    [] s.kind = "inner" /\ s.name = "claims" /\ c = "deep" -> "RecursionError"
     [] s.kind = "member" /\ c = "deep" -> "RecursionError"
     [] s.kind = "epk" /\ s.name = "crv" /\ c \in {"str_unknown", "str_otherkty"} -> "KeyError"
     [] s.kind = "epk" /\ c \in {"int", "list", "null", "obj", "list_nested", "list_obj", "bool", "float"} -> "TypeError"
@@ -103,7 +110,9 @@ Guarded(s, c, r) ==
     \/ ("EpkCrvLookup" \in Dev /\ s.kind = "epk")
     \/ ("P2cRange" \in Dev /\ s.kind = "member" /\ s.name = "p2c")
     \/ ("InflateError" \in Dev /\ s.kind = "inner" /\ s.name = "deflate")
-    \/ ("DeepJson" \in Dev /\ c = "deep")
+    \/ ("DeepJson" \in Dev /\ c = "deep" /\ s.kind # "inner")
+    \/ ("DeepClaims" \in Dev /\ c = "deep" /\ s.kind = "inner")
+    \/ ("KeyTypeGateMissing" \in Dev /\ c = "other_family")
     \/ ("SegmentTypeConfusion" \in Dev /\ s.kind = "json_shape")
 
 VARIABLES case, at, seen
@@ -114,7 +123,7 @@ Init == /\ at = 1 /\ seen = "none"
 
 Advance ==
   /\ seen = "none" /\ at <= Len(Stages)
-  /\ IF Stages[at] = Stage(case.slot) /\ Native(case.slot, case.class) # "none"
+  /\ IF Stages[at] = StageOf(case.slot, case.class) /\ Native(case.slot, case.class) # "none"
      THEN seen' = IF Native(case.slot, case.class) = "binascii.Error" THEN "value_error"
                   ELSE IF Guarded(case.slot, case.class, case.reg) THEN "jose_or_value_error" ELSE "escape:" \o Native(case.slot, case.class)
      ELSE seen' = IF at = Len(Stages) THEN "return_or_jose" ELSE "none"
@@ -123,5 +132,5 @@ Next == Advance
 Spec == Init /\ [][Next]_vars
 
 NoEscape == seen \in {"none", "value_error", "jose_or_value_error", "return_or_jose"}
-Export == at = 1 => PrintT("CASE " \o ToJson([c |-> case, stage |-> Stage(case.slot), native |-> Native(case.slot, case.class)]))
+Export == at = 1 => PrintT("CASE " \o ToJson([c |-> case, stage |-> StageOf(case.slot, case.class), native |-> Native(case.slot, case.class)]))
 =============================================================================
